@@ -197,7 +197,7 @@ PLANS["C02"]["rule"] += "; " + RULE_CONFIG
 
 PLANS["C12"] = {
     "level": "exploration",
-    "stages": [{"world": "threads", "runs": {"quick": 400, "thorough": 30000}},
+    "stages": [{"world": "threads", "runs": {"quick": 600, "thorough": 40000}},
                {"world": "config", "runs": {"quick": 24, "thorough": 800}},
                {"world": "envelope", "runs": {"quick": 600, "thorough": 40000}},
                {"world": "chain", "runs": {"quick": 500, "thorough": 40000}},
@@ -262,7 +262,7 @@ PLANS["C07"]["rule"] += ("; plus the envelope and storage worlds with C07 as tar
                          "canonical bytes of the payload presented at signing time (independent RFC 8032), every file the library writes must equal "
                          "the reference bytes")
 
-for _p, _n in (("C01", 200), ("C02", 150), ("C03", 150), ("C05", 150), ("C06", 150), ("C09", 150), ("C10", 100)):
+for _p, _n in (("C01", 200), ("C02", 150), ("C03", 700), ("C05", 150), ("C06", 150), ("C09", 150), ("C10", 300)):
     PLANS[_p]["stages"].append({"world": "threads", "runs": {"quick": _n, "thorough": _n * 40}})
     PLANS[_p]["rule"] += ("; plus the thread world (1-4 baton-scheduled threads over a shared pool, every outcome compared with the call "
                           "evaluated alone) with this property as target: a verdict that differs from the isolated one is reported here too")
@@ -272,3 +272,8 @@ PLANS["C10"]["rule"] += ("; plus the configuration leg: OpenPGP-mode positives a
                          "stand-in securesystemslib importable (a root key holder's environment)")
 for _p, _n in (("C04", 150), ("C16", 150), ("C08", 150), ("C11", 150), ("C07", 150)):
     PLANS[_p]["stages"].append({"world": "threads", "runs": {"quick": _n, "thorough": _n * 40}})
+
+for _p in ("C08", "C11"):
+    PLANS[_p]["stages"].append({"world": "cli", "runs": {"quick": 40, "thorough": 1500}})
+    PLANS[_p]["rule"] += ("; plus the CLI world on the real file system (sign-artifacts on files reached through symlinked directories and '..', "
+                          "under a file-size limit, on files signed before and then patched): status 0 only with a completely and validly signed file")
